@@ -86,6 +86,7 @@ pub fn run(ctx: &mut Ctx) {
     ctx.run_suite(&super::c02tick::TickSuite);
     ctx.run_suite(&super::c02real::RealEndsSuite);
     ctx.run_suite(&super::c02real::RealRelaySuite);
+    ctx.run_suite(&super::c02credit::CreditSuite);
     ctx.assume("scripted endpoints are cancel-safe like real sockets (a cancelled read or wait loses nothing) and keep answering EOF after EOF");
     ctx.assume("this check covers the pipe level (pipe.rs); the HTTP/2 window credit of the real codec halves is exercised by C16/C17 sessions, HTTP/3 only through the full stack");
 }
@@ -100,6 +101,7 @@ pub fn replay(ctx: &mut Ctx, suite: &str, case: &Value) -> bool {
         "session-stall-across-idle-tick" => ctx.replay_suite(&super::c02tick::TickSuite, case),
         "real-destination-ends" => ctx.replay_suite(&super::c02real::RealEndsSuite, case),
         "real-destination-relay" => ctx.replay_suite(&super::c02real::RealRelaySuite, case),
+        "h2-connection-window-credit" => ctx.replay_suite(&super::c02credit::CreditSuite, case),
         _ => false,
     }
 }
